@@ -76,6 +76,17 @@ Proof.
   - apply check_gateway_and_update_core.
 Qed.
 
+(* what conf_delete, and since /repo 0d0f3e6 an update that drops the Destination, run for a destination *)
+Lemma drop_destination_core name k s :
+  same_core (cleanup_ksn destination_kind name
+               (check_gateway_and_update name k
+                  (cleanup_gateway_wildcards name true (check_gateway_wildcards_and_update name None k s)))) s.
+Proof.
+  eapply same_core_trans; [apply cleanup_ksn_core|].
+  eapply same_core_trans; [apply check_gateway_and_update_core|].
+  eapply same_core_trans; [apply cleanup_gateway_wildcards_core|apply check_gateway_wildcards_and_update_core].
+Qed.
+
 Lemma update_gateway_namespace_core gw port r s : same_core (update_gateway_namespace gw port r s) s.
 Proof.
   unfold update_gateway_namespace.
